@@ -323,6 +323,42 @@ func (c *CEnv) evalBin(e *CExpr) Val {
 	case "||":
 		return Val{fmt.Sprintf("(or %s %s)", c.evalBool(e.Args[0]), c.evalBool(e.Args[1])), boolT, "Bool"}
 	}
+	if e.Name == "+" {
+		// flatten a chain of + so that byte-string concatenations come out right-nested (as the lowering produces them)
+		var ops []*CExpr
+		var flat func(x *CExpr)
+		flat = func(x *CExpr) {
+			if x.Op == "bin" && x.Name == "+" {
+				flat(x.Args[0])
+				flat(x.Args[1])
+				return
+			}
+			ops = append(ops, x)
+		}
+		flat(e)
+		vals := make([]Val, len(ops))
+		for i, o := range ops {
+			vals[i] = c.eval(o)
+		}
+		if vals[0].S == "Bytes" {
+			t := vals[len(vals)-1].T
+			for i := len(vals) - 2; i >= 0; i-- {
+				if vals[i].S != "Bytes" {
+					c.fail("sort mismatch in concatenation %s", e.String())
+				}
+				t = fmt.Sprintf("(bcat %s %s)", vals[i].T, t)
+			}
+			return Val{t, vals[0].Ty, "Bytes"}
+		}
+		t := vals[0].T
+		for _, v := range vals[1:] {
+			if v.S != "Int" {
+				c.fail("sort mismatch in sum %s", e.String())
+			}
+			t = fmt.Sprintf("(+ %s %s)", t, v.T)
+		}
+		return Val{t, vals[0].Ty, "Int"}
+	}
 	l := c.eval(e.Args[0])
 	r := c.eval(e.Args[1])
 	if l.S != r.S {
@@ -361,6 +397,11 @@ func (c *CEnv) evalCall(e *CExpr) Val {
 	boolT := types.Typ[types.Bool]
 	arg := func(i int) Val { return c.eval(e.Args[i]) }
 	switch e.Name {
+	case "match":
+		if m, ok := c.names["$match"]; ok {
+			return m
+		}
+		c.fail("match() outside a regexp characterisation")
 	case "len":
 		v := arg(0)
 		switch {
@@ -396,7 +437,7 @@ func (c *CEnv) evalCall(e *CExpr) Val {
 			c.fail("mapHas on non-map")
 		}
 		has, _ := g.mapArrays(c.st, mt)
-		return Val{fmt.Sprintf("(select (select %s %s) %s)", has, m.T, k.T), boolT, "Bool"}
+		return Val{fmt.Sprintf("(and (not (= %s 0)) (select (select %s %s) %s))", m.T, has, m.T, k.T), boolT, "Bool"}
 	case "mapGet":
 		m, k := arg(0), arg(1)
 		mt, ok := types.Unalias(m.Ty).Underlying().(*types.Map)
